@@ -190,7 +190,8 @@ def _function_over_one_var(repr_func, raw_func, x, out=None, out_like=None, sizi
 
     if method == 'repr' or x.scaled or (out is not None and out.scaled) or n_frac is None:
         raw = False
-        val = repr_func(x.get_val(), **kwargs)
+        # (integer values are handed to NumPy as Python integers when a sum or a product of them may leave int64)
+        val = repr_func(_signed_value(x.get_val(), (x.n_word + max(-x.n_frac, 0)) * max(x.size, 1)), **kwargs)
     elif method == 'raw':
         raw = True
         kwargs['n_frac'] = n_frac
@@ -242,7 +243,9 @@ def _function_over_two_vars(repr_func, raw_func, x, y, out=None, out_like=None, 
 
     if method == 'repr' or x.scaled or y.scaled or (out is not None and out.scaled) or n_frac is None:
         raw = False
-        val = repr_func(_signed_value(x.get_val(), x.n_word + y.n_word), _signed_value(y.get_val(), x.n_word + y.n_word), **kwargs)
+        # (the bits an integer VALUE may need: the word, plus the zeros a negative n_frac appends, plus the growth of an accumulation)
+        _n_bits = x.n_word + max(-x.n_frac, 0) + y.n_word + max(-y.n_frac, 0) + _growth_bits(max(x.size, y.size))
+        val = repr_func(_signed_value(x.get_val(), _n_bits), _signed_value(y.get_val(), _n_bits), **kwargs)
     elif method == 'raw':
         raw = True
         kwargs['n_frac'] = n_frac
